@@ -9,16 +9,59 @@ CFG = {
         {"files": ["banyand/measure/tstable.go", "banyand/measure/snapshot.go", "banyand/measure/introducer.go", "banyand/measure/flusher.go", "banyand/measure/merger.go",
                    "banyand/measure/gc.go", "banyand/measure/part.go", "banyand/measure/query.go", "banyand/measure/query_batch.go",
                    "banyand/stream/tstable.go", "banyand/stream/snapshot.go", "banyand/stream/introducer.go", "banyand/stream/flusher.go", "banyand/stream/merger.go",
-                   "banyand/stream/gc.go", "banyand/stream/part.go", "banyand/stream/query.go",
+                   "banyand/stream/gc.go", "banyand/stream/part.go", "banyand/stream/query.go", "banyand/stream/block_scanner.go", "banyand/stream/query_by_ts.go",
+                   "banyand/stream/query_by_idx.go", "banyand/stream/query_vectorized.go",
                    "pkg/run/goroutine.go", "pkg/timestamp/scheduler.go"], "mode": "A"},
+        # cooperative locks in the segment life cycle (as in C19): a query or writer contending for a segment lock parks instead of blocking inside the runtime
         {"files": ["banyand/internal/storage/segment.go", "banyand/internal/storage/tsdb.go", "banyand/internal/storage/rotation.go"], "mode": "B"},
     ],
-    "level_text": "TBD",
-    "level_note": "TBD",
+    "level_text": ("schedule exploration on a real standalone node (measure or stream engine, liaison front-end, query processor, row-at-a-time and vectorized query path) in a fake-clock bubble on a journaling "
+                   "disk shim: 1-5 writer actors (acknowledged batches of 1-12 rows with unique (series, timestamp), spanning 1-3 day segments, 1-2 shards), 2-6 query actors (full-range, 1 in 4 a sub-range) and the "
+                   "engine's own introducer / flusher / merger loops and part-removal goroutines run as named actors parked at gates (tools/gaterw, mode A) in front of every send to a table's introducer, between that "
+                   "send and the wait for 'applied', before a merge writes its output, before the introducer publishes a snapshot (replaceSnapshot), before a query pins a table's snapshot (currentSnapshot), "
+                   "between its last pin and its first block read, before each snapshot release and before a part directory is removed; the tape picks which parked actor proceeds at every quiescent point, "
+                   "interleaved with clock advances (flush timeout 1/2/5 s, so the real flusher and merger run). Oracles after every driver step: (1) no query error, no panic (query goroutine, recovered engine-loop "
+                   "panics via panicdiag's reporter; an unrecovered one kills the worker = crash class); (2) per table the batches a query returns are whole, contain every batch acknowledged before the query was "
+                   "invoked and form a prefix of the table's batch order (interval check on driver sequence numbers of invoke / acknowledge / return); (3) no write id twice, and at every quiescent point the row "
+                   "counts of the parts of each segment's current snapshots lie between 'rows acknowledged' and 'rows ever written' (a merged part together with its inputs, or neither, shows up here even where the "
+                   "measure query path de-duplicates); (4) from the disk journal: every part directory is removed at most once, never while it is a member of the table's current snapshot, and never between the "
+                   "moment a full-range query pinned a snapshot containing it (attributed through the snapshot's reference count before/after the query passed currentSnapshot) and the moment the driver lets that "
+                   "query into the matching snapshot release; (5) after all queries returned and maintenance came to rest: the final full-range answer equals the acknowledged rows, the part directories on disk are "
+                   "exactly the parts of the final snapshots, and every snapshot / part reference count is back at 1"),
+    "level_note": ("gates outside critical sections (mode A): interleavings inside tsTable's mutex are not explored; bluge (series index) and pkg/fs run atomically between gates. To keep runs a function of the tape the driver never "
+                   "lets an engine loop find two ready select cases (Go picks at random): nobody is released into a send to an introducer, or past the wait for 'applied', while an introducer is parked in the middle of a "
+                   "publication, and a merger is not released into re-registering with its flusher while that flusher is parked in mid-cycle; the scripted history, the step-limit drain and the race itself all run under "
+                   "these rules, so schedules in which two senders pile up at one introducer are not explored. The package-level merge semaphore (made at init outside the bubble, sized by the CPU count) is re-created "
+                   "inside the bubble with 8/1/2 slots. Pin tracking (oracle 4) covers full-range queries only; sub-range queries are judged by oracles 1-3. 'Stop the node while a query is parked' is NOT part of the check "
+                   "(exploration aid C05_STOP=1): simnode.Stop closes the engines without draining in-flight requests, which a real node's gRPC server does first; under it a released stream query was seen to return "
+                   "'segment closed', a recovered panic ('invalid query message'), or a successful answer lacking the rows of a segment closed underneath it, depending on the Go scheduler. Trace ordered queries "
+                   "(sidx entry without visible spans) are not covered by this check"),
     "budget": {"quick": 60, "thorough": 1200},
     "det_n": {"quick": 64, "thorough": 128},
-    "rule": "TBD",
-    "expected_probes": [],
-    "real_vs_stub": {"real": [], "stub": []},
-    "assumptions": STD_ASSUME + [],
+    "rule": ("each seed draws engine (measure 3 : stream 2), schema, shards (1 in 2 of 3 runs, else 1-2), query path (row / vectorized with batch size 1024/1/7/64), flush timeout 1/2/5 s, merge fan-in 2/2/3/4, eager merging "
+             "(3 in 4), merge semaphore 8/1/2, five arming knobs (query parks before its first block read 3/4, introducer parks before publishing 1/2, merge parks before writing 1/2, part removal parks 1/2, writer "
+             "parks before taking its part id 1/3); a scripted history of 0-4 batches with optional advances of two flush periods (first eligible actor released at every step); then up to 50/80/110 race steps in "
+             "which the tape chooses among: release one parked actor (run-until-yield bursts of 0/2/5 gates for engine actors), start a query (favoured while a flush or merge output is written but not yet "
+             "introduced; at most 3 in flight; hold budget 0/4/10/25 steps during which maintenance and clock advances are favoured over the held query), start a writer (at most 2 in flight), advance the clock "
+             "by one flush period / two periods + 1 s / 300 ms (1-6 times); after the step limit the actors in flight finish gate by gate in canonical order. Non-trivial = at least one query was in flight while a "
+             "flush or merge was introduced; distinct = canonical event-log digests"),
+    "expected_probes": ["reach.query_pin_attributed", "reach.query_overlapped_flush", "reach.query_overlapped_merge", "reach.merge_happened", "reach.part_directory_removed",
+                        "reach.merge_output_written_before_query", "reach.flush_output_written_before_query", "reach.query_pinned_while_merge_in_progress", "reach.query_pinned_while_flush_in_progress",
+                        "reach.query_pinned_while_introducer_mid_publication", "reach.query_pinned_while_writer_between_introductions", "reach.query_parked_between_pin_and_first_read",
+                        "reach.query_holds_snapshot_whose_parts_were_replaced", "reach.gc_removed_part_while_query_in_flight", "reach.pinned_part_removed_after_last_reader",
+                        "reach.batch_spans_two_segments", "reach.query_saw_unacknowledged_batch"],
+    "real_vs_stub": {
+        "real": ["measure/stream write path (liaison front-end, write callback, mustAddMemPart), introducer / flusher / merger loops, snapshot and partWrapper reference counting, part removal, gc of manifests",
+                 "query path: liaison Query RPC body, query processor, measure Query/Pull/PullBatch/Release, stream tsResult / vectorized scan, block scanner, series index lookup (bluge)",
+                 "storage segments and shards (SelectSegments, DecRef, rotation tick)"],
+        "stub": ["syscalls below pkg/fs: real files on tmpfs + journal (simos)", "metadata registry (simmeta)", "gRPC transport (front-end methods are called directly)", "clock (testing/synctest)",
+                 "scheduling at gate granularity: the driver, not the Go scheduler, picks which parked goroutine continues"],
+    },
+    "assumptions": STD_ASSUME + [
+        "'acknowledged' = the client's write stream returned with STATUS_SUCCEED for every request; a batch whose write was invoked but not acknowledged when a query returned may be visible (whole) or not",
+        "order between two batches of one table is demanded only when the first was acknowledged before the second was invoked",
+        "with 2 shards the shard of a series is not observable from outside: the atomic unit is (batch, day segment, series), a sound refinement of (batch, table)",
+        "time ranges are end-inclusive (as in every planner of this tree)",
+        "a query is 'still reading' a pinned snapshot until the driver releases it into the snapshot's decRef; snapshots are released in the order they were pinned (true for full-range queries in both engines)",
+    ],
 }
